@@ -80,11 +80,8 @@ def populate_zeta_interval(
 
 def classify_interstorms(cursor, data_interval, rising_jump_threshold_mm_h):
     """Populate interstorm intervals"""
-    (epoch, zeta_mm, is_raining) = (
-        np.array(v)
-        for v in zip(
-            *cursor.execute(
-                """
+    rows = cursor.execute(
+        """
          SELECT water_level.epoch,
                 zeta_mm,
                 rainfall_intensity_mm_h > 0 AS is_raining
@@ -95,10 +92,12 @@ def classify_interstorms(cursor, data_interval, rising_jump_threshold_mm_h):
          JOIN water_level
            ON rainfall_intensity.from_epoch = water_level.epoch
          ORDER BY from_epoch""",
-                (data_interval,),
-            )
-        )
-    )
+        (data_interval,),
+    ).fetchall()
+    if not rows:
+        # Data interval holds only the closing instant of the grid
+        return
+    (epoch, zeta_mm, is_raining) = (np.array(v) for v in zip(*rows))
     assert len(epoch), epoch.shape
     check_for_uniform_time_steps(epoch)
     hour = epoch / 3600.0
@@ -170,11 +169,8 @@ def match_all_storms(
     Thresholds are given in mm / h.
 
     """
-    (epoch, zeta_mm, rainfall_intensity_mm_h) = (
-        np.array(v)
-        for v in zip(
-            *cursor.execute(
-                """
+    rows = cursor.execute(
+        """
          SELECT water_level.epoch,
                 zeta_mm,
                 rainfall_intensity_mm_h
@@ -185,9 +181,13 @@ def match_all_storms(
          JOIN water_level
            ON rainfall_intensity.from_epoch = water_level.epoch
          ORDER BY from_epoch""",
-                (data_interval,),
-            )
-        )
+        (data_interval,),
+    ).fetchall()
+    if not rows:
+        # Data interval holds only the closing instant of the grid
+        return
+    (epoch, zeta_mm, rainfall_intensity_mm_h) = (
+        np.array(v) for v in zip(*rows)
     )
     check_for_uniform_time_steps(epoch)
     (time_step_s, time_step_h) = cursor.execute(
@@ -519,7 +519,7 @@ def check_for_uniform_time_steps(epoch):
 
     """
     delta_t = np.diff(epoch)
-    if delta_t.min() != delta_t.max():
+    if len(delta_t) and delta_t.min() != delta_t.max():
         raise ValueError("Nonuniform time steps in {}".format(sorted(set(delta_t))))
 
 
